@@ -107,12 +107,12 @@ func (p *printer) newline() {
 	p.w.WriteByte('\n')
 	// here-documents begin after the next newline
 	for i, list := range p.stack {
+		p.stack[i] = nil
 		for _, r := range list {
 			p.word(r.Heredoc)
 			p.word(r.Delim)
 			p.w.WriteByte('\n')
 		}
-		p.stack[i] = nil
 	}
 }
 
@@ -722,6 +722,11 @@ func (p *printer) arithExp(w *ast.ArithExp) {
 }
 
 func (p *printer) arithExpr(list bool, left string, x ast.Word) {
+	// newlines inside an arithmetic expression do not end the enclosing line
+	stack := p.stack
+	p.stack = [][]*ast.Redir{nil}
+	defer func() { p.stack = stack }()
+
 	p.w.WriteString(left)
 	if !list {
 		p.lv++
